@@ -13,7 +13,7 @@
     are explored (sanitizers, differential run against the Python codec) by
     harness/c09_spine_a.py. *)
 From Asn1V Require Import Base.Prelude CGen.Helpers CGen.HelpersSpec CGen.HelpersProofs CGen.HelpersTie.
-From Asn1V Require Import CGen.GenLogic CGen.GenLogicProofs.
+From Asn1V Require Import CGen.GenLogic CGen.GenLogicProofs CGen.GenLogicInt CGen.GenLogicIntProofs.
 From Asn1V Require Import CGen.Ir CGen.HelpersIrTie.
 From Asn1Gen Require Import UperHelpersIr.
 From Asn1Gen Require Import UperHelpers.
@@ -131,6 +131,56 @@ Theorem C09_type_length_signed_half_refuted :
   exists lo hi w v, lo <= hi /\ type_length lo hi = Some w /\ lo <= v <= hi /\ ~ fits (lo <? 0) w v.
 Proof. exact type_length_signed_half_refuted. Qed.
 Print Assumptions C09_type_length_signed_half_refuted.
+
+(** The integer fast path (uper.format_integer_inner): for every range the
+    generator accepts and every value of it, the generated encoder appends
+    X.691's constrained whole number — the offset from the lower bound in
+    nbits (hi - lo) bits — whether it takes the generic pair or calls
+    encoder_append_(u)intW, PROVIDED the decision is "the field is a word wide
+    and the lower bound is 0 or the minimum of that word" ([fast_path], what
+    /repo does after the repair; harness/c09_logic.py reads the helper calls
+    out of the generated C on every run and compares them with [emit_kind]). *)
+Theorem C09_int_fast_path_is_x691 : forall lo hi v,
+  lo <= hi -> lo <= v <= hi -> type_length_fixed lo hi <> None ->
+  emit fast_path lo hi v = Some (x691_constrained lo hi v).
+Proof. exact emit_fast_path_is_x691. Qed.
+Print Assumptions C09_int_fast_path_is_x691.
+
+(** ... and the decision as it was (width and minimum tested independently) is
+    refuted: INTEGER (-32768..-32513) is an 8-bit field for which
+    encoder_append_int16 was called (finding int-fast-path-width-mismatch). *)
+Theorem C09_int_fast_path_old_refuted :
+  exists lo hi v, lo <= hi /\ lo <= v <= hi /\ type_length_fixed lo hi <> None /\
+                  emit fast_path_old lo hi v <> Some (x691_constrained lo hi v).
+Proof. exact emit_fast_path_old_refuted. Qed.
+Print Assumptions C09_int_fast_path_old_refuted.
+
+(** The two decisions differ only for a negative lower bound that is the
+    minimum of a word of ANOTHER width. *)
+Theorem C09_int_fast_path_old_differs_only_there : forall nb lo,
+  fast_path_old nb lo <> fast_path nb lo ->
+  is_word_width nb = true /\ lo < 0 /\ lo <> - 2 ^ (nb - 1) /\
+  (lo = -128 \/ lo = -32768 \/ lo = -2147483648 \/ lo = -9223372036854775808).
+Proof. exact fast_path_old_differs_only_there. Qed.
+Print Assumptions C09_int_fast_path_old_differs_only_there.
+
+(** ENUMERATED without a switch: when the generator decides that no
+    index/number mapping is needed ([enum_mapping_required] = false on the
+    numbers in X.691 order, which is what format_enumerated_inner tests), the
+    number of the k-th enumerator is k, so writing the number writes the index. *)
+Theorem C09_enum_no_mapping_sound : forall values k v,
+  enum_mapping_required values = false -> nth_error values k = Some v -> v = Z.of_nat k.
+Proof. exact enum_no_mapping_sound. Qed.
+Print Assumptions C09_enum_no_mapping_sound.
+
+(** ... and the cheaper test "largest number = count - 1" is NOT sufficient
+    once a number is negative: {falling(-1), rising(1), surging(2)}. *)
+Theorem C09_enum_mapping_by_max_refuted :
+  exists values k v, enum_mapping_required_by_max values = false /\
+                     nth_error values k = Some v /\ v <> Z.of_nat k /\
+                     enum_mapping_required values = true.
+Proof. exact enum_mapping_by_max_refuted. Qed.
+Print Assumptions C09_enum_mapping_by_max_refuted.
 
 (** "Range/length validation is emitted only when the field width over-covers
     the range": that criterion is exactly right, in both directions. *)
